@@ -60,6 +60,12 @@ type scte35 struct {
 	// because there is no support for descriptors other than segmentation descriptors,
 	// the bytes need to be stored so information is not lost.
 	otherDescriptorBytes []byte
+	// otherDescriptorPos[i] is how many segmentation descriptors came before
+	// the i-th of those descriptors and otherDescriptorLens[i] its size in
+	// otherDescriptorBytes, so that UpdateData can put them back where they
+	// were found.
+	otherDescriptorPos  []int
+	otherDescriptorLens []int
 }
 
 // NewSCTE35 creates a new SCTE35 signal from the provided byte slice. The byte slice is parsed and relevant info is made available fir the SCTE35 interface. If the message cannot me parsed, an error is returned.
@@ -163,6 +169,9 @@ func (s *scte35) parseTable(data []byte) error {
 				// Store their bytes anyways so the data is not lost.
 				s.otherDescriptorBytes = append(s.otherDescriptorBytes, descTag, descLen)
 				s.otherDescriptorBytes = append(s.otherDescriptorBytes, buf.Next(int(descLen))...)
+				// remember its place among the segmentation descriptors
+				s.otherDescriptorPos = append(s.otherDescriptorPos, len(s.descriptors))
+				s.otherDescriptorLens = append(s.otherDescriptorLens, 2+int(descLen))
 			} else {
 				d := &segmentationDescriptor{spliceInfo: s}
 				err := d.parseDescriptor(buf.Next(int(descLen)))
